@@ -26,7 +26,7 @@ var (
 )
 
 func sysInvalid(rng *proto.Rng) []sysObj {
-	switch rng.Intn(9) {
+	switch rng.Intn(13) {
 	case 0: // missing name
 		return []sysObj{{ID: jid{"ns1", "", "", "ConfigMap"}}}
 	case 1: // namespaced kind without namespace
@@ -46,6 +46,16 @@ func sysInvalid(rng *proto.Rng) []sysObj {
 			{ID: jid{"ns1", "x", "", "ConfigMap"}, Deps: []jid{{"ns1", "y", "", "ConfigMap"}}},
 			{ID: jid{"ns1", "y", "", "ConfigMap"}, Deps: []jid{{"ns1", "x", "", "ConfigMap"}}},
 			{ID: jid{"ns1", "z", "", "ConfigMap"}, Deps: []jid{{"ns1", "x", "", "ConfigMap"}}}}
+	// objects of the catalogue (which earlier runs of the history apply in their valid form, so that they are tracked)
+	// turned invalid by their dependency annotation
+	case 8: // b: malformed reference
+		return []sysObj{{ID: soB.ID, DepsRaw: "not/a/valid/ref"}}
+	case 9: // d: external dependency
+		return []sysObj{{ID: soD.ID, Deps: []jid{{"ns1", "absent", "", "ConfigMap"}}}}
+	case 10: // c: duplicate dependency
+		return []sysObj{{ID: soC.ID, Deps: []jid{soB.ID, soB.ID}}, soB, soA}
+	case 11: // s: malformed reference, its dependency k present
+		return []sysObj{{ID: soS.ID, DepsRaw: "x//y"}, soK}
 	default: // missing kind
 		return []sysObj{{ID: jid{"ns1", "nokind", "", ""}}}
 	}
@@ -107,6 +117,12 @@ func genSysHistory(rng *proto.Rng) sysIn {
 			}
 			if rng.Chance(1, 4) {
 				for _, o := range sysInvalid(rng) {
+					// the invalid form replaces a valid form of the same object picked above
+					for i := range run.Objs {
+						if run.Objs[i].ID == o.ID && (o.DepsRaw != "" || len(o.Deps) != len(run.Objs[i].Deps)) {
+							run.Objs[i] = o
+						}
+					}
 					run.Objs = addObj(run.Objs, o)
 				}
 			}
@@ -191,6 +207,15 @@ func sysHandWritten() []sysIn {
 		{Pre: pre, Runs: []sysRun{{Kind: "apply", Objs: []sysObj{soA, soB, soK, soS}}, {Kind: "apply", Objs: []sysObj{soA}, Opts: sysOpts{NoPrune: true}}, {Kind: "apply", Objs: []sysObj{soA}}}},
 		{Pre: pre, Runs: []sysRun{{Kind: "apply", Objs: []sysObj{soK, soS, soL}}, {Kind: "destroy"}}},
 		{Pre: []sysObj{soNs2}, Runs: []sysRun{{Kind: "apply", Objs: []sysObj{soNs1, soA, soB}}, {Kind: "destroy"}}},
+		// tracked objects whose manifest turns invalid (dependency annotation) in a later run that skips invalid objects
+		{Pre: pre, Runs: []sysRun{{Kind: "apply", Objs: []sysObj{soA, soB}},
+			{Kind: "apply", Objs: []sysObj{soA, {ID: soB.ID, DepsRaw: "not/a/valid/ref"}}, Opts: sysOpts{SkipInvalid: true}},
+			{Kind: "apply", Objs: []sysObj{soA}}}},
+		{Pre: pre, Runs: []sysRun{{Kind: "apply", Objs: []sysObj{soD, soA}},
+			{Kind: "apply", Objs: []sysObj{{ID: soD.ID, Deps: []jid{{"ns1", "absent", "", "ConfigMap"}}}}, Opts: sysOpts{SkipInvalid: true}},
+			{Kind: "destroy"}}},
+		{Pre: pre, Runs: []sysRun{{Kind: "apply", Objs: []sysObj{soA, soB, soC}},
+			{Kind: "apply", Objs: []sysObj{soA, soB, {ID: soC.ID, Deps: []jid{soB.ID, soB.ID}}}, Opts: sysOpts{SkipInvalid: true}}}},
 	}
 }
 
